@@ -36,8 +36,44 @@ func cornerBytes(r *rand.Rand, n int) []byte {
 		}
 	case 2:
 		b[r.Intn(n)] = 1 << uint(r.Intn(8))
+	case 3:
+		return blockyBytes(r, n)
+	case 4: // leading zero octets (values that lose octets when they pass through an integer or a trimmed string)
+		r.Read(b)
+		for i, z := 0, 1+r.Intn(3); i < z && i < n; i++ {
+			b[i] = 0
+		}
 	default:
 		r.Read(b)
+	}
+	return b
+}
+
+// blockyBytes returns n bytes made of runs: starting at a random phase, each aligned block of 4, 8 or 16 octets is
+// all-zero, all-ones, a repetition of one octet, or random. Word-oriented code (GF(2^64) MAC evaluation, keystream
+// words, CMAC blocks) treats all-zero and all-ones words specially more often than any other value, and random octets
+// produce such a word with probability 2^-32 .. 2^-128.
+func blockyBytes(r *rand.Rand, n int) []byte {
+	b := make([]byte, n)
+	r.Read(b)
+	blk := []int{4, 8, 16}[r.Intn(3)]
+	for i := -r.Intn(blk); i < n; i += blk {
+		var fill int
+		switch r.Intn(5) {
+		case 0, 1:
+			fill = 0x00
+		case 2:
+			fill = 0xff
+		case 3:
+			fill = r.Intn(256)
+		default:
+			continue // leave random
+		}
+		for j := i; j < i+blk && j < n; j++ {
+			if j >= 0 {
+				b[j] = byte(fill)
+			}
+		}
 	}
 	return b
 }
